@@ -234,6 +234,10 @@ def m_immutable(ctx, pre, act, obs, post):
         changed = [n for n, a, b in zip(sorted(pre), before, after) if a != b]
         vs.append(V(f"{_site_any(pre, act)} | argument-mutated | op={act['op']},outcome={outcome}",
                     f"{e1.act_str(act)} {outcome} and modified {changed} in place", ctx['case']))
+    if obs.get('lists_changed'):
+        vs.append(V(f"{_site_any(pre, act)} | argument-mutated | list-argument,op={act['op']},outcome={outcome}",
+                    f"{e1.act_str(act)} {outcome} and changed a list that was handed to it (it was "
+                    f"{[getattr(x, 'name', x) for x in obs['lists_changed'][0]]} before)", ctx['case']))
     if obs['ok']:
         old_ids = {id(o) for o in pre.values()}
         for n, o in obs['new'].items():
